@@ -710,6 +710,8 @@ def run_check(prop, tier, base, replay_path=None):
         else:
             verd.add(fullkey, path, hit[0]["detail"])
 
+    core.dump_digests((r["name"] + r["opt"], hashlib.sha1("".join(r["digests"]).encode()).hexdigest())
+                      for r in results)
     wall = time.time() - t0
     stats = Counter()
     for r in results:
